@@ -11,6 +11,7 @@ import re
 import xml.etree.ElementTree as ET
 
 from scx import El
+import gen
 import usimlib
 from tracelib import *
 
@@ -357,6 +358,16 @@ def oracle(plan, res):
     # completeness: what the parent forwards or sends to #_kid while the invocation is running must be put
     # into that child's external queue (whether the child gets to process it before it ends is another matter)
     child_extq = {c: b.ext.get(c) for c in children}
+    kid_exit_sends = {}
+    try:
+        croot = gen.from_xml(plan["charts"]["main"])
+        for e in croot.walk():
+            if (e.tag == "send" and e.attrs.get("target") == "#_kid" and "delay" not in e.attrs and e.attrs.get("event")
+                    and any(a.tag == "onexit" for a in gen._ancestors(e)) and any(a.attrs.get("id") == "inv" for a in gen._ancestors(e))
+                    and not any(a.tag == "content" for a in gen._ancestors(e))):
+                kid_exit_sends[e.xpath()] = e.attrs["event"]
+    except Exception:
+        kid_exit_sends = {}
     for (c, (s_aiv, s_aun)) in pairs:
         q = child_extq.get(c)
         if not q:
@@ -380,13 +391,29 @@ def oracle(plan, res):
                     if not any(r[SEQ] < sq < lim and n == nm for (sq, n) in got_q):
                         v.append(("C11.routing", "parent dequeued %s (seq %d) while the invocation of %s was running with autoforward, but it was never put into the child's queue" % (nm, r[SEQ], c)))
                         break
+        # the onexit handlers of the invoking state (and of the states below it) run before the invocation is cancelled
+        # (Appendix D, exitStates: the onexit content first, then cancelInvoke): what they send to #_kid is put into the
+        # child's queue, unless the child had finished on its own by then
+        later_aiv = [a for (c2, (a, u)) in pairs if a > s_aiv]
+        # (a child that ended because it was cancelled has not "finished on its own")
+        cancel_marks = [r[SEQ] for r in lines if r[KIND] == "enq<" and r[SESS] == q and not r[6].get("name") and r[SEQ] > s_aiv]
         open_send = None
+        ms_start = None
         for r in lines:
-            if r[SESS] == "i0" and r[KIND] == "bxc" and "/send[" in r[5]:
+            if r[SESS] != "i0":
+                continue
+            if r[KIND] == "bms":
+                ms_start = r[SEQ]
+            elif r[KIND] == "bxc" and r[5] in kid_exit_sends:
                 open_send = r
-            elif r[SESS] == "i0" and r[KIND] == "axc" and open_send is not None and r[5] == open_send[5]:
-                if s_aiv < open_send[SEQ] and r[SEQ] < s_end and "inv" in open_send[5]:
-                    pass
+            elif r[KIND] == "axc" and open_send is not None and r[5] == open_send[5]:
+                if (ms_start is not None and s_aiv < ms_start and not [a for a in later_aiv if a < ms_start] and (not buns or min(buns) > ms_start)
+                        and not (child_done and min(child_done) < r[SEQ] and not [m for m in cancel_marks if m < min(child_done)])):
+                    nm = kid_exit_sends[r[5]]
+                    if not any(open_send[SEQ] < sq < r[SEQ] and n == nm for (sq, n) in got_q):
+                        v.append(("C11.routing", "the onexit handler %s sent %s to #_kid (seq %d-%d) in the micro-step that leaves the invoking state, while the invocation of %s was still "
+                                  "running when the micro-step began; the event was never put into the child's queue" % (r[5], nm, open_send[SEQ], r[SEQ], c)))
+                        break
                 open_send = None
     for s in b.invokeid:
         if s.startswith("i"):
